@@ -176,6 +176,14 @@ func (fr *Frame) modCall(ci ssa.CallInstruction, ms *modSet, bind map[*ssa.FreeV
 			return
 		}
 	}
+	if key == "" {
+		if bn := fr.behaviourOf(c.Value); bn != "" {
+			if bc := w.P.Contracts["behaviour:"+bn]; bc != nil {
+				fr.modContract(bc, c, ms, bind)
+				return
+			}
+		}
+	}
 	// closure invoked directly or inlined
 	if callee != nil && callee.Blocks != nil && depth < 4 {
 		if mc, ok := c.Value.(*ssa.MakeClosure); ok {
@@ -597,4 +605,66 @@ func (fr *Frame) resolveName(name string, li *loopInfo) (TV, bool) {
 		return TV{fr.val(best), best.Type()}, true
 	}
 	return TV{}, false
+}
+
+// resolveNameAt resolves a source-level name at an instruction: the latest debug reference to the
+// variable that dominates the instruction.
+func (fr *Frame) resolveNameAt(name string, li *loopInfo, at ssa.Instruction) (TV, bool) {
+	if tv, ok := fr.paramTV[name]; ok {
+		return tv, true
+	}
+	// address-taken locals and captured cells
+	for _, b := range fr.fn.Blocks {
+		for _, ins := range b.Instrs {
+			if a, ok := ins.(*ssa.Alloc); ok && a.Comment == name {
+				if t, ok := fr.vals[a]; ok {
+					return TV{t, a.Type()}, true
+				}
+			}
+		}
+	}
+	var best ssa.Value
+	var bestIns ssa.Instruction
+	for _, b := range fr.fn.Blocks {
+		for _, ins := range b.Instrs {
+			dr, ok := ins.(*ssa.DebugRef)
+			if !ok || dr.IsAddr {
+				continue
+			}
+			id, ok := dr.Expr.(*ast.Ident)
+			if !ok || id.Name != name {
+				continue
+			}
+			if _, known := fr.vals[dr.X]; !known {
+				if _, isConst := dr.X.(*ssa.Const); !isConst {
+					continue
+				}
+			}
+			// the reference must come before "at" on every path: same block earlier, or a dominating block
+			if b == at.Block() {
+				before := false
+				for _, x := range b.Instrs {
+					if x == ins {
+						before = true
+						break
+					}
+					if x == at {
+						break
+					}
+				}
+				if !before {
+					continue
+				}
+			} else if !b.Dominates(at.Block()) {
+				continue
+			}
+			if bestIns == nil || bestIns.Block().Dominates(b) {
+				best, bestIns = dr.X, ins
+			}
+		}
+	}
+	if best != nil {
+		return TV{fr.val(best), best.Type()}, true
+	}
+	return fr.resolveName(name, li)
 }
